@@ -549,6 +549,12 @@ def py_extras(tf):
     E["~a.test(prefix, ('x','y'))"] = ~tf.TagQuery().a.test(_has_prefix, ("x", "y"))
     E["~a.test(prefix, ['x','y'])"] = ~tf.TagQuery().a.test(_has_prefix, ["x", "y"])
     E["a.test(member, ['x'])"] = tf.TagQuery().a.test(_member, ["x"])
+    # the same function with other unhashable arguments: different queries (whatever the hash does about the arguments)
+    E["a.test(member, ['y'])"] = tf.TagQuery().a.test(_member, ["y"])
+    E["a.test(member, {'y': 1})"] = tf.TagQuery().a.test(_member, {"y": 1})
+    E["~a.test(member, ['y'])"] = ~tf.TagQuery().a.test(_member, ["y"])
+    E["a.test(member, ['y']) & b.exists()"] = tf.TagQuery().a.test(_member, ["y"]) & tf.TagQuery().b.exists()
+    E["a.test(member, ['x']) & b.exists()"] = tf.TagQuery().a.test(_member, ["x"]) & tf.TagQuery().b.exists()
     E["a.test(member, ('x',))"] = tf.TagQuery().a.test(_member, ("x",))
     # a partial test function (raises TypeError on a None field): `a & b` and `b & a` are equal queries, so they must
     # evaluate alike — both raise, or neither
